@@ -236,6 +236,27 @@ def c08_humidity(ctx):
         a.humidity = 0.0
         dry = p.Atmo(p.Distance.Foot(0), p.Pressure.hPa(1000), p.Temperature.Celsius(20), 0.0)
         ctx.check_eq('setter_updates_density', a.density_ratio, dry.density_ratio)
+        # ... also what the station predicts FAR from its own altitude, when it had already been asked there before the humidity changed
+        h2 = ctx.real('humidity_later', 0, 100)
+        far = 2500.0
+        a.get_density_factor_and_mach_for_altitude(far)
+        a.humidity = h2
+        same = p.Atmo(p.Distance.Foot(0), p.Pressure.hPa(1000), p.Temperature.Celsius(20), h2)
+        d1, m1 = a.get_density_factor_and_mach_for_altitude(far)
+        d2, m2 = same.get_density_factor_and_mach_for_altitude(far)
+        ctx.check('setter_updates_density', ctx.same_term(d1, d2) and ctx.same_term(m1, m2), info={'where': 'far from the station, asked before and after the change'})
+        # a refused assignment leaves the station as it was (value, density), for an ordinary atmosphere and for a vacuum
+        bad = ctx.real('humidity_refused', -1000, 1000)
+        ctx.assume((bad < 0) | (bad > 100))
+        for tag, obj in (('atmo', a), ('vacuum', p.Vacuum(p.Distance.Foot(0), p.Temperature.Celsius(20)))):
+            hb, db = obj.humidity, obj.density_ratio
+            try:
+                obj.humidity = bad
+                refused = False
+            except ValueError:
+                refused = True
+            ctx.check('rejected_outside_0_100', refused, info={'object': tag, 'via': 'setter'})
+            ctx.check('refused_assignment_changes_nothing', ctx.same_term(obj.humidity, hb) and ctx.same_term(obj.density_ratio, db), info={'object': tag})
 
 
 @harness('C08.vacuum', 'C08', functions=FUNCS, must_reach=['check:vacuum_density_zero'], engine_opts={'div_check': False, 'pin_check': True},
